@@ -351,7 +351,7 @@ def run_scenario(sc, observe="all"):
                 rec.events.append(["cleared_orders_meta", [name_of(o) for o in event.event]])
             def _process_cleared_markets(self, event):
                 for cm in event.event.orders:
-                    rec.events.append(["cleared_market", cm.market_id, cm.profit, cm.commission, cm.bet_count, ms(datetime.datetime.utcnow())])
+                    rec.events.append(["cleared_market", cm.market_id, cm.profit, cm.commission, cm.bet_count])
             def _process_closed_market(self, event):
                 rec.events.append(["closed_market", event.event.market_id])
             def _process_cleared_orders(self, event):
